@@ -204,7 +204,39 @@ def check_state(st, ent, tier, out):
                 bad('drop', f"{label}: drop({names}) returned {sorted(d)[:10]} expected {sorted(filt(want, names, False))[:10]}",
                     selection=label, names=names)
                 return False
-        # by-kind dictionaries
+        # chained filters and by-kind dictionaries of filtered views
+        if len(allnames) >= 2:
+            chains = [([allnames[0]], [allnames[-1]]), ([allnames[-1]], allnames[:2]), (allnames[:1], allnames[:1])]
+            nodal_names = list(dict.fromkeys(b.elem.dofnames[:b.elem.nodal_dofs]))
+            if nodal_names and len(nodal_names) < len(allnames):
+                rest = [n_ for n_ in allnames if n_ not in nodal_names]
+                chains.append((nodal_names, [allnames[0], rest[-1]]))
+                chains.append((rest, nodal_names[:1]))
+            for n1, n2 in chains:
+                out.ev()
+                try:
+                    base_drop = view.drop(n1)
+                    base_keep = view.keep(n1)
+                    res = {
+                        'drop.keep': (base_drop.keep(n2), filt(filt(want, n1, False), n2, True)),
+                        'drop.drop': (base_drop.drop(n2), filt(filt(want, n1, False), n2, False)),
+                        'keep.drop': (base_keep.drop(n2), filt(filt(want, n1, True), n2, False)),
+                        'keep.keep': (base_keep.keep(n2), filt(filt(want, n1, True), n2, True)),
+                    }
+                    for cl, (vw, wn) in res.items():
+                        g = set(int(x) for x in vw.flatten())
+                        if g != wn:
+                            bad('chained-filter', f"{label}: {cl.split('.')[0]}({n1}).{cl.split('.')[1]}({n2}) returned "
+                                f"{sorted(g)[:10]} expected {sorted(wn)[:10]}", selection=label, names=[n1, n2])
+                            return False
+                        if not dicts_ok(vw, wn, f"{label} after {cl.split('.')[0]}({n1}).{cl.split('.')[1]}({n2})"):
+                            return False
+                except Exception as e:
+                    bad('filter-exception', f"{label}: chained filter {n1}/{n2} raised {e!r}", selection=label)
+                    return False
+        return dicts_ok(view, want, label)
+
+    def dicts_ok(view, want, label):
         try:
             for attr, kd in (('nodal', 'v'), ('facet', 'f'), ('edge', 'e'), ('interior', 'i')):
                 dct = getattr(view, attr)
@@ -288,6 +320,18 @@ def check_state(st, ent, tier, out):
                         bad('skip', f"{label}: skip={names} returned {sorted(g)[:10]} expected "
                             f"{sorted(filt(want, names, False))[:10]}", selection=label, names=names)
                         break
+                    sv = b.get_dofs(sel, skip=names)
+                    if not dicts_ok(sv, filt(want, names, False), f"{label} with skip={names}"):
+                        break
+                    if len(allnames) >= 2:
+                        n2 = [allnames[0], allnames[-1]]
+                        g2 = set(int(x) for x in sv.keep(n2).flatten())
+                        w2 = filt(filt(want, names, False), n2, True)
+                        out.ev()
+                        if g2 != w2:
+                            bad('chained-filter', f"{label}: skip={names} then keep({n2}) returned {sorted(g2)[:10]} expected "
+                                f"{sorted(w2)[:10]}", selection=label, names=[names, n2])
+                            break
         nsel += 1
         # deprecated dict form
         if len(F) == 2 and nsel % 5 == 0:
